@@ -34,22 +34,14 @@ Theorem C12_sharing : forall (V : Type) (sigma : nat -> option nat) (n n' : node
     In (p1, sd sigma q1) (walk V n') /\ In (p2, sd sigma q2) (walk V n') /\ (q1 = q2 <-> sd sigma q1 = sd sigma q2).
 Proof. exact rebuild_sharing. Qed.
 
-(* FIXED VALUES, CLASSES, TUPLES, DERIVED VALUES.  Full statement: the new model builds, from corresponding
-   arguments, the instance the old model builds.  On the faithful model it holds when no Collection holds a float
-   constant directly (partial) and fails otherwise (refuted). *)
-Theorem C12_instance_partial : forall (V : Type) (bin : binop -> V -> V -> V) (sigma : nat -> option nat)
+(* FIXED VALUES, CLASSES, TUPLES, DERIVED VALUES (full): the new model builds, from corresponding arguments, the
+   instance the old model builds. *)
+Theorem C12_instance : forall (V : Type) (bin : binop -> V -> V -> V) (sigma : nat -> option nat)
     (args args' : nat -> option V) (n : node V),
-  wf V n -> coll_const_free V n -> forall n', rebuild V sigma n = Some n' ->
+  wf V n -> forall n', rebuild V sigma n = Some n' ->
   (forall q, In q (prior_ids V n) -> args' (sd sigma q) = args q) ->
   inst V bin args' n' = inst V bin args n.
 Proof. exact rebuild_inst. Qed.
-
-Theorem C12_instance_refuted :
-  wf Q ex_coll /\
-  exists n' sp, qpass (-1000) 1000 [] ex_specs (MMeans (Some 1) None false [1 # 2]) ex_coll = Ok (n', sp) /\
-                inst Q qbin (fun _ => Some 0) n' <> inst Q qbin (fun _ => Some 0) ex_coll /\
-                ~ coll_const_free Q ex_coll.
-Proof. exact instance_refuted. Qed.
 
 (* MEANS / BOUNDED MODES keep ids: every query of the new model equals that of the old one *)
 Theorem C12_structure_kept : forall (V : Type) (L : leaves V) cfg specs (md : mode V) (n n' : node V) sp,
@@ -58,9 +50,9 @@ Theorem C12_structure_kept : forall (V : Type) (L : leaves V) cfg specs (md : mo
   ordered_ids V n' = ordered_ids V n /\ prior_count V n' = prior_count V n.
 Proof. exact l_structure_kept. Qed.
 
-Theorem C12_instance_kept_partial : forall (V : Type) (L : leaves V) cfg specs (bin : binop -> V -> V -> V) (md : mode V)
+Theorem C12_instance_kept : forall (V : Type) (L : leaves V) cfg specs (bin : binop -> V -> V -> V) (md : mode V)
     (n n' : node V) sp (args : nat -> option V),
-  wf V n -> coll_const_free V n -> keeps_ids V md -> lpass V L cfg specs md n = Ok (n', sp) ->
+  wf V n -> keeps_ids V md -> lpass V L cfg specs md n = Ok (n', sp) ->
   inst V bin args n' = inst V bin args n.
 Proof. exact l_instance_kept. Qed.
 
@@ -113,7 +105,7 @@ Proof. exact l_width_nonneg. Qed.
    are not empty *)
 Theorem C12_total_means_conditions : forall (V : Type) (L : leaves V) cfg specs (a r : option V) (nl : bool)
     (means : list V) (n : node V),
-  wf V n -> is_pm V n = true -> names_ok V n -> specs_cover V specs n -> llimits_good V L cfg specs ->
+  wf V n -> is_pm V n = true -> specs_cover V specs n -> llimits_good V L cfg specs ->
   (prior_count V n <= List.length means)%nat ->
   (a = None \/ r = None) ->
   (forall x, a = Some x -> l_neg_sigma V L (l_abs_width V L x) = false) ->
@@ -141,43 +133,30 @@ Theorem C12_config_own : forall (V : Type) (p : path) (n : node V) cls ctor attr
   cfg_name (p ++ k0 :: rest) = Ok (last (k0 :: rest) EmptyString).
 Proof. exact config_own. Qed.
 
-(* Full statement "passing succeeds for every finite inferred vector", exact arithmetic.
-   absolute widths: holds for all vectors of any sign, except the number-named-prior guard names_ok (partial);
-   relative / configured widths: additionally only for non-negative values (partial); refuted otherwise. *)
-Theorem C12_total_absolute_partial : forall (ninf pinf : Q) cfg specs (a : Q) (nl : bool) (means : list Q) (n : node Q),
-  wf Q n -> is_pm Q n = true -> names_ok Q n -> specs_cover Q specs n -> qlimits_good ninf pinf cfg specs ->
+(* Full statement "passing succeeds for every finite inferred vector" (any sign), exact arithmetic *)
+Theorem C12_total_absolute : forall (ninf pinf : Q) cfg specs (a : Q) (nl : bool) (means : list Q) (n : node Q),
+  wf Q n -> is_pm Q n = true -> specs_cover Q specs n -> qlimits_good ninf pinf cfg specs ->
   (prior_count Q n <= List.length means)%nat -> 0 <= a ->
   exists n' sp, qpass ninf pinf cfg specs (MMeans (Some a) None nl means) n = Ok (n', sp).
 Proof. exact total_absolute_Q. Qed.
 
-Theorem C12_total_relative_partial : forall (ninf pinf : Q) cfg specs (r : Q) (nl : bool) (means : list Q) (n : node Q),
-  wf Q n -> is_pm Q n = true -> names_ok Q n -> specs_cover Q specs n -> qlimits_good ninf pinf cfg specs ->
-  (prior_count Q n <= List.length means)%nat -> 0 <= r -> Forall (fun m => 0 <= m) means ->
+Theorem C12_total_relative : forall (ninf pinf : Q) cfg specs (r : Q) (nl : bool) (means : list Q) (n : node Q),
+  wf Q n -> is_pm Q n = true -> specs_cover Q specs n -> qlimits_good ninf pinf cfg specs ->
+  (prior_count Q n <= List.length means)%nat -> 0 <= r ->
   exists n' sp, qpass ninf pinf cfg specs (MMeans None (Some r) nl means) n = Ok (n', sp).
 Proof. exact total_relative_Q. Qed.
 
-Theorem C12_total_default_partial : forall (ninf pinf : Q) cfg specs (nl : bool) (means : list Q) (n : node Q),
-  wf Q n -> is_pm Q n = true -> names_ok Q n -> specs_cover Q specs n -> qlimits_good ninf pinf cfg specs ->
+Theorem C12_total_default : forall (ninf pinf : Q) cfg specs (nl : bool) (means : list Q) (n : node Q),
+  wf Q n -> is_pm Q n = true -> specs_cover Q specs n -> qlimits_good ninf pinf cfg specs ->
   qmodifiers_good cfg specs ->
-  (prior_count Q n <= List.length means)%nat -> Forall (fun m => 0 <= m) means ->
+  (prior_count Q n <= List.length means)%nat ->
   exists n' sp, qpass ninf pinf cfg specs (MMeans None None nl means) n = Ok (n', sp).
 Proof. exact total_default_Q. Qed.
 
-Theorem C12_total_relative_refuted :
-  qpass (-1000) 1000 [] ex_specs (MMeans None (Some (1 # 2)) false [1 # 2; -(3 # 2)]) ex_model = Exc EMessage
-  /\ qpass (-1000) 1000 [] ex_specs (MMeans None None false [1 # 2; -(3 # 2)]) ex_model = Exc EMessage.
-Proof. exact total_relative_refuted. Qed.
-
-Theorem C12_total_digit_refuted :
-  wf Q ex_digit /\ is_pm Q ex_digit = true /\
-  qpass (-1000) 1000 [] ex_specs (MMeans (Some 1) None false [1 # 2]) ex_digit = Exc EIndex /\ ~ names_ok Q ex_digit.
-Proof. exact total_digit_refuted. Qed.
-
-(* relative width: for r > 0 the computed width is negative exactly for negative values *)
-Theorem C12_relative_width_sign : forall r m : Q, 0 < r ->
-  (0 <= m -> sigma_negative_Q (pm_rel_width_Q r m) = false /\ sigma_negative_Q (wm_relative_Q r m) = false) /\
-  (m < 0 -> sigma_negative_Q (pm_rel_width_Q r m) = true /\ sigma_negative_Q (wm_relative_Q r m) = true).
-Proof. exact relative_width_sign. Qed.
+(* relative widths are never negative, whatever the sign of the value *)
+Theorem C12_relative_width_nonneg : forall r m : Q, 0 <= r ->
+  sigma_negative_Q (pm_rel_width_Q r m) = false /\ sigma_negative_Q (wm_relative_Q r m) = false.
+Proof. exact relative_width_nonneg. Qed.
 
 (* bounded: succeeds for every vector of any sign over exact numbers (full); the uniform prior is centred on the
    value with half-width b.  In binary64 the statement fails for |value| >= 2^53 b (refuted). *)
@@ -237,10 +216,10 @@ Theorem C12_rational_instance : forall ninf pinf cfg specs, qpass ninf pinf cfg 
 Proof. exact qpass_is_lpass. Qed.
 
 Print Assumptions C12_paths_and_identity.
-Print Assumptions C12_instance_partial.
+Print Assumptions C12_instance.
 Print Assumptions C12_own_value.
 Print Assumptions C12_total_means_conditions.
-Print Assumptions C12_total_relative_refuted.
+Print Assumptions C12_total_relative.
 Print Assumptions C12_total_bounded_float_refuted.
 Print Assumptions C12_limits_structure.
 Print Assumptions C12_fixed_instance.
